@@ -13,8 +13,9 @@
     src/wlearner/table.cpp:52-86, 154-181      score, score_dense, update     -> `binMom`, `binScore`, `denseCand`
     src/wlearner/table.cpp:88-124              score_kbest(…, 1) (dstep)      -> `dstepCand`
     src/dataset/hash.cpp:17-43, core/hash.h    make_hashes, hash, find        -> `hashesOf`, `hashBits`, `findHash`
-    include/nano/core/reduce.h:12-17           min_reduce                     -> `minReduce`
-    `if (std::isfinite(score) && score < cache.m_score)` of every do_fit      -> `pick`, `fitSeq`, `fitAssigned`
+    include/nano/core/reduce.h:19-31           min_reduce_feature             -> `lessSF`, `minReduce` (`minReduceOld`: before 62472c9)
+    `if (std::isfinite(score) && score < cache.m_score)` of affine/stump/hinge -> `pick`, `fitSeq`, `fitAssigned`
+    `… && (score < m_score || (score == m_score && feature < m_feature))` of table.cpp (5de0896) -> `pickLex`, `fitSeqLex`
     src/wlearner/{affine,stump,hinge,table,dtree}.cpp do_predict / do_split   -> `eval`, `predictOne`, `splitOne`
     src/wlearner/util.cpp:5-15                 scale                          -> `scaleTables`, `Learner.scale`
     src/wlearner/util.cpp:30-58, single.cpp:48-56, affine.cpp:142-149, table.cpp:431-441
@@ -418,16 +419,65 @@ def pick [FinTest α] (best c : Cand α) : Cand α :=
 /-- one cache that sees all candidates in order (one thread) -/
 def fitSeq [FinTest α] (big : α) (cands : List (Cand α)) : Cand α := cands.foldl pick (noFit big)
 
-/-- `std::min_element` with `one.m_score < other.m_score` -/
+/-- the comparison of `min_reduce_feature` (reduce.h:25-31, commit 62472c9):
+    `one.m_score < other.m_score || (one.m_score == other.m_score && one.m_feature < other.m_feature)`;
+    a stored score is never NaN, so `a == b` is `¬ a < b ∧ ¬ b < a` and `<` alone suffices. The empty cache (`noFit`) has
+    `m_feature = -1` (`0` in affine.cpp) in the code and `0` here: never compared at equal scores with a stored candidate
+    (those score strictly below `no_fit_score()`), and two empty caches are interchangeable. -/
+def lessSF (d c : Cand α) : Prop := d.score < c.score ∨ (¬ c.score < d.score ∧ d.feature < c.feature)
+
+instance (d c : Cand α) : Decidable (lessSF d c) := by unfold lessSF; exact inferInstance
+
+/-- `std::min_element` with the comparison above: the first smallest (score, then feature index) -/
 def minReduce : Cand α → List (Cand α) → Cand α
   | c, [] => c
-  | c, d :: ds => minReduce (if d.score < c.score then d else c) ds
+  | c, d :: ds => minReduce (if lessSF d c then d else c) ds
 
-/-- the per-thread caches (each sees the candidates of the chunks it was handed, in its order), then `min_reduce` -/
+/-- the cache update of the TABLE learners since commit 5de0896 (table.cpp:72, 110, 164):
+    `if (std::isfinite(score) && (score < m_score || (score == m_score && feature < m_feature)))` — a table fit runs two
+    loops (single-label, then multi-label features) into the same caches, so a cache may see feature indices out of order -/
+def pickLex [FinTest α] (best c : Cand α) : Cand α :=
+  if FinTest.isFin c.score = true ∧ lessSF c best then c else best
+
+/-- one table cache that sees all candidates in order -/
+def fitSeqLex [FinTest α] (big : α) (cands : List (Cand α)) : Cand α := cands.foldl pickLex (noFit big)
+
+/-- the rule before commit 62472c9 (`min_reduce`: score only) — kept for the counterexample of Props/C10.lean only -/
+def minReduceOld : Cand α → List (Cand α) → Cand α
+  | c, [] => c
+  | c, d :: ds => minReduceOld (if d.score < c.score then d else c) ds
+
+/-- the per-thread caches (each sees the candidates of the chunks it was handed, in its order), then `min_reduce_feature` -/
 def fitAssigned [FinTest α] (big : α) (workers : List (List (Cand α))) : Cand α :=
   match workers.map (fitSeq big) with
   | [] => noFit big
   | c :: cs => minReduce c cs
+
+/-- table fits: lexicographic per-thread caches, then `min_reduce_feature` -/
+def fitAssignedLex [FinTest α] (big : α) (workers : List (List (Cand α))) : Cand α :=
+  match workers.map (fitSeqLex big) with
+  | [] => noFit big
+  | c :: cs => minReduce c cs
+
+/-- the same with the rule before commit 62472c9 -/
+def fitAssignedOld [FinTest α] (big : α) (workers : List (List (Cand α))) : Cand α :=
+  match workers.map (fitSeq big) with
+  | [] => noFit big
+  | c :: cs => minReduceOld c cs
+
+/-- a feature as a fit sees it: its index and its candidates in the fixed order of its sweep -/
+abbrev FeatC (α : Type) := Nat × List (Cand α)
+
+/-- the candidates a worker feeds to its cache: those of the features it processed, feature after feature -/
+def streamC (w : List (FeatC α)) : List (Cand α) := w.flatMap (·.2)
+
+/-- every worker processed its features in increasing index order — what `pool_t::map` produces for one loop over one
+    feature list (parallel.h:295-347: chunks enqueued in order under one lock into a FIFO queue, every worker pops from the
+    front; dataset/iterator.cpp:236-276: increasing loop inside a chunk) -/
+def WorkersSorted (workers : List (List (FeatC α))) : Prop := ∀ w ∈ workers, (w.map Prod.fst).Pairwise (· < ·)
+
+instance (workers : List (List (FeatC α))) : Decidable (WorkersSorted workers) :=
+  inferInstanceAs (Decidable (∀ w ∈ workers, (w.map Prod.fst).Pairwise (· < ·)))
 
 /-- `best.m_score != wlearner_t::no_fit_score()` (a cache only ever replaces its score by a smaller one) -/
 def Cand.fitted (big : α) (c : Cand α) : Bool := decide (c.score < big)
